@@ -290,11 +290,26 @@ func H15_vecmerge() {
 	n0 := 1 + vChoice("n0", vParam("maxDocs", 2))
 	n1 := 1 + vChoice("n1", vParam("maxDocs1", vParam("maxDocs", 2))) // (the second input may be kept smaller)
 	docs0, vecs0 := vGenVecBatch("a", n0, sim)
-	docs1, vecs1 := vGenVecBatch("b", n1, sim)
+	// (altSim: the second input was indexed with another metric and every document of it is deleted: a dead input
+	// decides nothing about the merged index)
+	bAlt := vParam("altSim", 0) == 1 && vBool("bAlt")
+	sim1 := sim
+	if bAlt {
+		sim1 = index.InnerProduct
+	}
+	docs1, vecs1 := vGenVecBatch("b", n1, sim1)
 	s0 := vBuildInput(docs0, DefaultChunkMode, vParam("reopen", 1) == 1 && vBool("reopen0"), vP("in0.zap"))
 	s1 := vBuildInput(docs1, DefaultChunkMode, false, vP("in1.zap"))
 	d0, b0 := vDropBitmap("drop0_", n0)
 	d1, b1 := vDropBitmap("drop1_", n1)
+	if bAlt {
+		d1 = roaring.New()
+		b1 = make([]bool, n1)
+		for d := 0; d < n1; d++ {
+			d1.Add(uint32(d))
+			b1[d] = true
+		}
+	}
 	var want []sVec
 	next := uint64(0)
 	for si, n := range []int{n0, n1} {
@@ -478,7 +493,25 @@ func H19_faults() {
 	}
 	ops := []string{"IndexFactory", "AddWithIDs", "WriteIndexIntoBuffer", "ReadIndexFromBuffer", "ReconstructBatch"}
 	var z ZapPlugin
-	scenario := vChoice("scenario", 2+vParam("large", 0))
+	scenario := vChoice("scenario", 2+2*vParam("large", 0))
+	if scenario == 3 {
+		// a BUILD above the 1000-vector threshold (clustered index class): every engine call of that path fails once
+		var docs []index.Document
+		for i := 0; i < 1100; i++ {
+			id := fmt.Sprint("c", i)
+			docs = append(docs, &vDoc{id: id, fields: []index.Field{vIDField(id), &vVecField{name: "v", vec: []float32{float32(i), 1}, sim: sim}}})
+		}
+		live0 := faiss.VerifLive()
+		bops := []string{"IndexFactory", "SetDirectMap", "Train", "AddWithIDs", "WriteIndexIntoBuffer"}
+		op := bops[vChoice("bop", len(bops))]
+		faiss.VerifFail(op, faiss.VerifCalls(op)+1)
+		_, _, err := z.newWithChunkMode(docs, DefaultChunkMode)
+		vRunSpawned()
+		vAssert(err != nil, "big-build-failure-reported")
+		vAssert(faiss.VerifLive() == live0, "big-build-no-index-leak")
+		vAssert(faiss.VerifDoubleClosed() == 0 && faiss.VerifUsedAfterClose() == 0, "big-build-no-misuse")
+		return
+	}
 	if scenario == 2 {
 		// merge whose result crosses the 1000-vector threshold: clustered index path (SetDirectMap, Train)
 		big := func(prefix string, n int) []index.Document {
